@@ -361,11 +361,12 @@ class ArgumentParser:
             allow_abbrev=False,
         )
         parser.add_argument("-D", dest="defines", action="append")
+        parser.add_argument("-I", dest="include_paths", action="append")
         parser.add_argument(
-            "-I",
             "-isystem",
-            dest="include_paths",
+            dest="system_include_paths",
             action="append",
+            default=[],
         )
         parser.add_argument(
             "-include",
@@ -403,6 +404,9 @@ class ArgumentParser:
         )
         if unrecognized:
             log.warning(f"Unrecognized arguments: '{' '.join(unrecognized)}'")
+
+        # Directories named by -isystem are searched after those named by -I.
+        args.include_paths = args.include_paths + args.system_include_paths
 
         # Construct final list of active modes.
         args.modes = set(args.modes)
